@@ -153,7 +153,7 @@ Qed.
 
 (* ---- tie to the current source: regenerated on every run by tools/ga2coq (coq/gen) ---- *)
 From Coq Require Import String.
-From GA Require Import Guards GuardTie.
+From GA Require Import Guards GuardTieConstFns GuardTieChunks.
 From GAGen Require Import GenGuards GenConstFns.
 Local Open Scope Z_scope.
 
@@ -181,7 +181,7 @@ Proof. exact tie_chunks_arith. Qed.
 (* ---- T1: the one-expression bodies this property's code consists of besides the modelled core, as they stand
         in the source now (coq/gen/GenSigs.v gen_thin_bodies) ---- *)
 From Coq Require Import String.
-From GA Require Import SigTie.
+From GA Require Import SigDefs.
 From GAGen Require Import GenSigs.
 Local Open Scope string_scope.
 
@@ -200,4 +200,4 @@ Theorem C18_source_const_transmute_body :
           "# [repr (C)] union Union < A , B > { a : ManuallyDrop < A > , b : ManuallyDrop < B > , }";
           "let a = ManuallyDrop :: new (a) ;";
           "ManuallyDrop :: into_inner (Union { a } . b)"].
-Proof. exact tie_const_transmute_body. Qed.
+Proof. reflexivity. Qed.
